@@ -130,6 +130,16 @@ class Kinds:
                     return n
                 # unknown external exception class: an Exception we do not name
                 return "OtherException"
+            if k == "func" and getattr(p.node, "returns", None) is not None:
+                # `raise build_error(...)`: a repository function declared to return an exception object
+                ann = p.node.returns
+                if isinstance(ann, ast.Constant) and isinstance(ann.value, str):
+                    try:
+                        ann = ast.parse(ann.value, mode="eval").body
+                    except SyntaxError:
+                        ann = None
+                if isinstance(ann, (ast.Name, ast.Attribute)):
+                    return self.resolve_class_expr(ann, p)
         if isinstance(e, ast.Attribute):
             dotted = ast.unparse(e)
             t = self.prog.type_of(e, fi)
